@@ -27,6 +27,10 @@ pub enum Op {
     New(u8, u8),
     /// pull up to n items from the iterator in the slot
     Step(u8, u16),
+    /// consume the rest of the iterator in the slot through another method of the Iterator trait
+    /// (0 count, 1 last, 2 fold, 3 for_each, 4 collect, 5 nth(n) and keep it, 6 skip(n) + collect,
+    /// 7 by_ref().take(n) + count and keep it); an iterator type may override any of them
+    Drain(u8, u8, u8),
 }
 
 #[derive(Clone, Debug, Serialize, Deserialize)]
@@ -82,6 +86,67 @@ fn run_session(c: &Session) -> Result<(usize, usize), String> {
                 slots[slot] = None; // drop first, then build: the order a `x = new()` assignment cannot give
                 listed[slot].clear();
                 slots[slot] = Some((spec, 0, make(&c.specs[spec])));
+            }
+            Op::Drain(slot, how, n) => {
+                let slot = *slot as usize % SLOTS;
+                let n = *n as usize % 7;
+                let is_kmin = |sp: usize| matches!(c.specs[sp], Spec::KMin { .. });
+                if let Some((sp, pos, mut it)) = slots[slot].take() {
+                    let rest: Vec<Item> = want[sp][pos.min(want[sp].len())..].to_vec();
+                    let head = |x: &Item| if is_kmin(sp) { x[..3.min(x.len())].to_vec() } else { x.clone() };
+                    let fail = |what: String| Err(format!("operation {} ({:?}) on the iterator built from {} after {} items taken with next(): {}", i, op, crate::util::trunc(&format!("{:?}", c.specs[sp]), 160), pos, what));
+                    match how % 8 {
+                        0 => {
+                            let got = it.count();
+                            if got != rest.len() {
+                                return fail(format!("count() = {}, {} items remain in the model", got, rest.len()));
+                            }
+                        }
+                        1 => {
+                            let got = it.last().map(|x| head(&x));
+                            if got != rest.last().cloned() {
+                                return fail(format!("last() = {:?}, the model's last item is {:?}", got, rest.last()));
+                            }
+                        }
+                        2 | 3 | 4 => {
+                            let got: Vec<Item> = match how % 8 {
+                                2 => it.fold(Vec::new(), |mut acc, x| { acc.push(head(&x)); acc }),
+                                3 => { let mut acc = Vec::new(); it.for_each(|x| acc.push(head(&x))); acc }
+                                _ => it.collect::<Vec<Item>>().iter().map(|x| head(x)).collect(),
+                            };
+                            if got != rest {
+                                let p = got.iter().zip(rest.iter()).position(|(a, b)| a != b).unwrap_or(got.len().min(rest.len()));
+                                return fail(format!("the rest taken by {} has {} items, the model {}; first difference at {}: {:?} vs {:?}", ["", "", "fold", "for_each", "collect"][(how % 8) as usize], got.len(), rest.len(), p, got.get(p), rest.get(p)));
+                            }
+                        }
+                        5 => {
+                            let got = it.nth(n).map(|x| head(&x));
+                            if got != rest.get(n).cloned() {
+                                return fail(format!("nth({}) = {:?}, the model has {:?}", n, got, rest.get(n)));
+                            }
+                            // the iterator stays in its slot (the lists of the k-mer reporting iterator are no longer tracked)
+                            if !is_kmin(sp) && got.is_some() {
+                                slots[slot] = Some((sp, pos + n + 1, it));
+                            }
+                        }
+                        6 => {
+                            let got: Vec<Item> = it.skip(n).map(|x| head(&x)).collect();
+                            let exp: Vec<Item> = rest.iter().skip(n).cloned().collect();
+                            if got != exp {
+                                return fail(format!("skip({}) leaves {} items, the model {}", n, got.len(), exp.len()));
+                            }
+                        }
+                        _ => {
+                            let got = it.by_ref().take(n).count();
+                            if got != n.min(rest.len()) {
+                                return fail(format!("by_ref().take({}).count() = {}, the model has {} items left", n, got, rest.len()));
+                            }
+                            if !is_kmin(sp) {
+                                slots[slot] = Some((sp, pos + got, it));
+                            }
+                        }
+                    }
+                }
             }
             Op::Step(slot, n) => {
                 let slot = *slot as usize % SLOTS;
@@ -162,6 +227,7 @@ pub fn strategy(kinds: &'static [u8]) -> BoxedStrategy<Session> {
     let op = prop_oneof![
         2 => (0u8..4, any::<u8>()).prop_map(|(s, sp)| Op::New(s, sp)),
         5 => (0u8..4, prop_oneof![3 => 1u16..=3, 2 => 1u16..=40, 1 => Just(1000u16)]).prop_map(|(s, n)| Op::Step(s, n)),
+        2 => (0u8..4, 0u8..8, 0u8..7).prop_map(|(s, h, n)| Op::Drain(s, h, n)),
     ];
     (proptest::collection::vec(spec, 1..=4), proptest::collection::vec(op, 2..=40))
         .prop_map(|(specs, mut ops)| {
